@@ -52,7 +52,7 @@ def _kw(c):
 
 
 def _api(c):
-    return "ApiBinner" if c["api"] == "binner" else "ApiHistogram"
+    return "ApiBinner" if c["api"].startswith("binner") else "ApiHistogram"
 
 
 def _eff(c):
@@ -158,6 +158,12 @@ def _data(r, kind, n):
         return [r.gauss(0, 1) for _ in range(n)], "f8"
     if kind == "decimal":          # values like 0.1*k: exactly on the decimal edges, inexact in binary
         return [round(0.1 * r.randrange(0, 40), 1) for _ in range(n)], "f8"
+    if kind in ("descending", "ascending"):      # already sorted input, with ties
+        k = r.choice([2, 3, 10, 50])
+        d = sorted((r.randrange(0, k + 1) for _ in range(n)), reverse=(kind == "descending"))
+        if r.random() < 0.4:
+            d = [v * 0.5 for v in d]
+        return d, r.choice(["i8", "f8", "i4", "u1"])
     raise ValueError(kind)
 
 
@@ -180,6 +186,76 @@ def _case(r, fam, data, dtype, mode, spec, lo, hi, api=None):
             "min": None if lo is None else _enc(lo), "max": None if hi is None else _enc(hi),
             "api": api or r.choice(["tuple", "more", "binner", "binner"]),
             "container": r.choice(["ndarray", "list"])}
+
+
+INT_RANGES = {"i1": (-128, 127), "u1": (0, 255), "i2": (-32768, 32767), "u2": (0, 65535),
+              "i4": (-2**31, 2**31 - 1), "u4": (0, 2**32 - 1), "i8": (-2**53, 2**53), "u8": (0, 2**53), "bool": (0, 1)}
+APIS = ["tuple", "more", "binner", "weights", "norev", "binner_y", "binner_w", "binner_twice", "binner_stats"]
+
+
+def _fit_dtype(vals, dtype):
+    """dtype if every value (python number) is exactly representable in it, else a wider one"""
+    import numpy as np
+    base = dtype.lstrip("<>")
+    allint = all(isinstance(v, int) for v in vals)
+    if base in INT_RANGES:
+        lo, hi = INT_RANGES[base]
+        if allint and all(lo <= v <= hi for v in vals):
+            return dtype
+        return "i8" if allint and all(abs(v) <= 2**53 for v in vals) else "f8"
+    if base in ("f4", "f2"):
+        t = np.float32 if base == "f4" else np.float16
+        with np.errstate(all="ignore"):
+            ok = all(abs(float(v)) < 6e4 and float(t(v)) == float(v) for v in vals)
+        return dtype if ok else dtype.replace(base, "f8")
+    return dtype
+
+
+def _forms(r, c, force=None):
+    """input forms beyond plain list / contiguous native ndarray (all inside the statement: the data
+    denote the same exact reals): container, dtype incl. non-native byte order, views, numpy-scalar
+    keywords, defaults passed explicitly, further entry-point variants"""
+    vals = [_num(v) for v in c["data"]]
+    f = dict(force or {})
+    dt = f.get("dtype") or r.choice(["i1", "u1", "i2", "u2", "i4", "u4", "i8", "u8", "bool", "f4", "f8", "f8",
+                                      ">f8", ">f4", ">i4", ">i2", ">u2", ">i8", "f2"])
+    c["dtype"] = _fit_dtype(vals, dt)
+    cont = f.get("container") or r.choice(["ndarray", "ndarray", "list", "tuple"] +
+                                            (["scalar", "zerod", "scalar", "zerod"] if len(vals) == 1 else []))
+    c["container"] = cont
+    if cont == "ndarray":
+        c["view"] = f["view"] if "view" in f else r.choice([None, "strided", "reversed", "readonly", "strided"])
+    c["limform"] = f["limform"] if "limform" in f else r.choice([None, "np"])
+    c["specform"] = f["specform"] if "specform" in f else r.choice([None, "np"])
+    c["explicit"] = f["explicit"] if "explicit" in f else (r.random() < 0.4)
+    c["api"] = f.get("api") or r.choice(APIS)
+    if c["api"] in ("weights", "binner_w"):
+        c["wpat"] = f.get("wpat") or r.choice(["ones", "mod3"])
+    c["family"] = c["family"].split("/")[0] + "+forms" + c["family"][len(c["family"].split("/")[0]):]
+    return c
+
+
+def _long(r, n, kind, cut=None):
+    """long arrays around a power of two.  Mostly descending data keep the insertion sort of the Coq
+    model linear; ties of three, a few values out of place, some data beyond the limits."""
+    d = [(n - i) // 3 for i in range(n)]
+    if kind == "ascending":
+        d = d[::-1]
+    for _ in range(r.randrange(0, 6)):
+        d[r.randrange(n)] = r.randrange(0, n // 3 + 1)
+    top = n // 3
+    if cut is None:
+        cut = r.random() < 0.5
+    lo = top // 10 if cut and r.random() < 0.7 else None       # without limits all n data reach the engines
+    hi = top - top // 7 if cut and (lo is None or r.random() < 0.7) else None
+    mode = r.choice(["nbin", "binsize"])
+    a, b = (0 if lo is None else lo), (top if hi is None else hi)
+    spec = r.choice([7, 64, 129]) if mode == "nbin" else (b - a) / r.choice([10, 100, 128.0])
+    c = _case(r, "long%d-%s/%s/x" % (n, kind, mode), d, r.choice(["i8", "f8", "i4"]), mode, spec, lo, hi,
+              api=r.choice(["tuple", "binner"]))
+    if r.random() < 0.5:
+        c["container"], c["view"] = "ndarray", r.choice(["strided", "reversed", "readonly"])
+    return c
 
 
 def _limits(r, data, which):
@@ -275,6 +351,29 @@ def _adversarial(r):
                               nb if nb is not None else (1.0 if bs in ("omit", None) else bs), lo, hi, api=api)
                     c["kw"] = {"binsize": bs if bs in ("omit", None) else _enc(bs), "nbin": nb}
                     cs.append(c)
+    # input forms, systematically on three small data sets
+    bases = [([3, 1, 2, 2, 0, 5, 5, 1], 1, 4), ([0.5, 0.25, 3.0, 1.0, 1.0, 2.5, 0.75], 0.5, 2.5), ([1, 0, 1, 1, 0], None, None),
+             ([5, 5, 4, 4, 4, 2, 1, 1, 0], 1, None), ([7], None, None), ([2.5], 2, 3)]
+    for d, lo, hi in bases:
+        for mode, spec in (("nbin", 3), ("binsize", 0.5)):
+            def mk(**force):
+                c = _case(r, "adv:forms/%s/x" % mode, d, "f8", mode, spec, lo, hi, api="tuple")
+                return _forms(r, c, force)
+            for dt in ("i1", "u1", "i2", "u2", "i4", "u4", "i8", "u8", "bool", "f2", "f4", "f8", ">f8", ">f4", ">i4", ">i2", ">u2", ">i8"):
+                cs.append(mk(dtype=dt, container="ndarray", view=None, api=r.choice(["tuple", "binner"])))
+            for view in ("strided", "reversed", "readonly"):
+                for dt in ("f8", "i4", ">f8"):
+                    cs.append(mk(dtype=dt, container="ndarray", view=view, api=r.choice(["tuple", "binner", "more"])))
+            for cont in ("list", "tuple") + (("scalar", "zerod") if len(d) == 1 else ()):
+                for dt in ("f8", "i8"):
+                    cs.append(mk(dtype=dt, container=cont))
+            for api in APIS:
+                for explicit in (False, True):
+                    cs.append(mk(dtype="f8", container="ndarray", view=None, api=api, explicit=explicit,
+                                 limform=r.choice([None, "np"]), specform=r.choice([None, "np"])))
+            for wpat in ("ones", "mod3"):
+                for api in ("weights", "binner_w"):
+                    cs.append(mk(dtype="f8", container="list", api=api, wpat=wpat, explicit=False))
     # inputs the code rejects (the property makes no claim; the model must agree on the error class)
     cs.append(_case(r, "rejected", [], "f8", "nbin", 2, None, None))
     cs.append(_case(r, "rejected", [], "f8", "binsize", 1.0, 0, 1))
@@ -289,7 +388,7 @@ def _adversarial(r):
 def _random(ctx, count, big):
     r = ctx.rng
     cs = []
-    kinds = ["ints", "ints", "ties", "constant", "floats", "floats", "gauss", "decimal"]
+    kinds = ["ints", "ints", "ties", "constant", "floats", "floats", "gauss", "decimal", "descending", "ascending"]
     while len(cs) < count:
         kind = r.choice(kinds)
         n = r.choice([1, 2, 3, r.randrange(1, 12), r.randrange(1, 60), r.randrange(1, big)])
@@ -307,6 +406,8 @@ def _random(ctx, count, big):
             else:
                 c["kw"] = {"binsize": "omit", "nbin": None}
             c["family"] = "%s/%s/%s" % (kind, "options", which)
+        if r.random() < 0.35:
+            _forms(r, c)
         e = expected(c)
         if e is not None and e["nbin"] > MAXBIN:
             continue
@@ -328,9 +429,15 @@ class Hist(Entry):
         cs = []
         if round == 0:
             cs += _adversarial(ctx.rng)
-        cs += _random(ctx, ctx.n(1500, 9000), ctx.n(200, 400))
+        cs += _random(ctx, ctx.n(1200, 8000), ctx.n(200, 400))
         if round == 0:
             cs += _random(ctx, ctx.n(4, 24), ctx.n(1000, 2000))          # a few long arrays
+            for n, kind, cut in ctx.n([(4097, "descending", False), (1025, "ascending", True)],
+                                      [(4095, "descending", False), (4096, "descending", False), (4097, "descending", False),
+                                       (4097, "descending", True), (8193, "descending", False), (8191, "descending", True),
+                                       (16385, "descending", False), (1023, "ascending", False), (1025, "ascending", True),
+                                       (2049, "ascending", False)]):
+                cs.append(_long(ctx.rng, n, kind, cut))
         ctx.rng.shuffle(cs)                       # spread the expensive cases over the Coq shards
         return cs
 
@@ -342,33 +449,94 @@ class Hist(Entry):
         if have_chist and not getattr(U, "_chist", None):
             return ("err", "EOther", "compiled extension _chist is not importable")
         U.have_chist = have_chist
-        data = [_num(v) for v in c["data"]]
-        if c["container"] == "ndarray" or c["dtype"] != "f8":
-            data = np.array(data, dtype=c["dtype"])
+        vals = [_num(v) for v in c["data"]]
+        dt, cont, api = c["dtype"], c["container"], c["api"]
+        npdt = np.dtype(bool) if dt == "bool" else np.dtype(dt)
+        if cont in ("scalar", "zerod") and len(vals) != 1:
+            cont = "ndarray"
+        if cont == "scalar":
+            data = vals[0] if dt == "f8" else npdt.type(vals[0])
+        elif cont == "zerod":
+            data = np.array(vals[0], dtype=npdt)
+        elif cont in ("list", "tuple") and dt == "f8":
+            data = list(vals) if cont == "list" else tuple(vals)
+        else:
+            data = np.array(vals, dtype=npdt)
+            view = c.get("view")
+            if view == "strided":
+                base = np.empty(2 * data.size, dtype=npdt)
+                base[::2] = data
+                base[1::2] = data[::-1]
+                data = base[::2]
+            elif view == "reversed":
+                data = data[::-1].copy()[::-1]
+            elif view == "readonly":
+                data.setflags(write=False)
+        n = len(vals)
+
+        def npnum(v):
+            return np.int64(v) if isinstance(v, int) else np.float64(v)
         kw = {}
         bs, nb = _kw(c)
         if bs != "omit":
-            kw["binsize"] = None if bs is None else _num(bs)
+            kw["binsize"] = None if bs is None else (npnum(_num(bs)) if c.get("specform") == "np" else _num(bs))
         if nb is not None:
-            kw["nbin"] = nb
-        if c["min"] is not None:
-            kw["min"] = _num(c["min"])
-        if c["max"] is not None:
-            kw["max"] = _num(c["max"])
+            kw["nbin"] = np.int64(nb) if c.get("specform") == "np" else nb
+        for key in ("min", "max"):
+            if c[key] is not None:
+                kw[key] = npnum(_num(c[key])) if c.get("limform") == "np" else _num(c[key])
+        if c.get("explicit"):                     # defaults given explicitly
+            kw.setdefault("min", None)
+            kw.setdefault("max", None)
+            kw.setdefault("nbin", None)
+            kw.update(nperbin=None, mergelast=True)
+            if not api.startswith("binner"):
+                if "binsize" not in kw:
+                    kw["binsize"] = 1.0
+                if api != "weights":
+                    kw["weights"] = None
+            else:
+                kw.setdefault("binsize", None)
+        wts = None
+        if api in ("weights", "binner_w"):
+            wts = np.ones(n) if c.get("wpat") != "mod3" else np.array([float(i % 3) for i in range(n)])
+            if cont in ("scalar", "zerod"):
+                wts = float(wts[0])
 
         def f():
             obs = None
-            if c["api"] == "tuple":
+            if api == "tuple":
                 h, rev = st.histogram(data, rev=True, **kw)
+            elif api == "norev":                  # the counts without reverse indices, rev from a second call
+                h = st.histogram(data, **kw)
+                _, rev = st.histogram(data, rev=True, **kw)
             else:
-                if c["api"] == "more":
+                if api == "more":
                     b = st.histogram(data, more=True, **kw)
+                elif api == "weights":
+                    b = st.histogram(data, weights=wts, rev=True, **kw)
+                elif api == "binner_y":           # a second variable forces the reverse indices
+                    b = st.Binner(data, y=np.arange(n, dtype="f8") if n != 1 or cont not in ("scalar", "zerod") else 0.0)
+                    b.dohist(rev=False, calc_stats=False, **kw)
+                elif api == "binner_w":
+                    b = st.Binner(data, weights=wts)
+                    b.dohist(rev=False, calc_stats=False, **kw)
+                elif api == "binner_twice":       # the same object used before with another specification
+                    b = st.Binner(data)
+                    try:
+                        med = sorted(float(v) for v in vals)[n // 2]
+                        b.dohist(nbin=3, min=med, rev=True, calc_stats=False)
+                        b.dohist(binsize=0.75, max=med, rev=False, calc_stats=False)
+                    except (ValueError, IndexError, ZeroDivisionError):
+                        pass
+                    b.dohist(rev=True, calc_stats=False, **kw)
                 else:
                     b = st.Binner(data)
-                    b.dohist(rev=True, calc_stats=False, **kw)
+                    b.dohist(rev=True, calc_stats=(api == "binner_stats"), **kw)
                 h, rev = b["hist"], b["rev"]
+                pre = "x" if api == "binner_y" else ""
                 obs = {"binsize": float(b["binsize"]).hex(), "nbin": int(b["nbin"]),
-                       "min": float(b["min"]).hex(), "max": float(b["max"]).hex(),
+                       "min": float(b[pre + "min"]).hex(), "max": float(b[pre + "max"]).hex(),
                        "sort": [int(v) for v in b["sort_index"]], "wsort": [int(v) for v in b["wsort"]]}
             assert h.dtype == np.int64 and rev.dtype == np.int64 and h.ndim == 1 and rev.ndim == 1
             if h.size > MAXOUT or rev.size > MAXOUT:     # a (mutated) tree that derives a huge bin count
@@ -430,7 +598,8 @@ class Hist(Entry):
 
 ENTRIES = [Hist()]
 
-REAL_THEOREMS = {"C05_binnum_monotone", "C05_argsort_stable", "C05_contracts_hold", "C05_holds_finite"}
+REAL_THEOREMS = {"C05_binnum_monotone", "C05_argsort_stable", "C05_contracts_hold", "C05_holds_finite",
+                 "C05_holds_finite_all"}
 
 TRUSTED = [
     "Coq 8.16.1 kernel (coqc, vm_compute; no native_compute); all C05 theorems are closed under the global context "
@@ -496,7 +665,7 @@ def run(ctx, replay=None):
             vals = core.coq_eval(ctx.work + "/monitor", PRE, [t for _, t in ent.monitors], tag="monitor")
             codes = [v.strip("() ").replace("%Z", "") for v in vals]
             bad = [c for (c, _), v in zip(ent.monitors, codes) if v not in ("0", "2")]
-            ctx.count("inside the proved domain of C05_holds_finite", sum(1 for v in codes if v == "2"))
+            ctx.count("inside the proved domain of C05_holds_finite_all", sum(1 for v in codes if v == "2"))
         except core.CoqEvalError as e:
             bad = None
             ctx.notes.append(str(e)[-1500:])
